@@ -229,42 +229,138 @@ def filtered_def(f, name, before):
     return best
 
 
+def _mask_flags(f, mask, base, depth=0):
+    """which validity tests a boolean mask applies to `base` (normalised text): subset of {'fin', 'ne'}"""
+    out = set()
+    if depth > 3 or mask is None:
+        return out
+    if isinstance(mask, ast.BinOp) and isinstance(mask.op, ast.BitAnd):
+        return _mask_flags(f, mask.left, base, depth) | _mask_flags(f, mask.right, base, depth)
+    if isinstance(mask, ast.Call) and short(mask) in ('logical_and',) and len(mask.args) == 2:
+        return _mask_flags(f, mask.args[0], base, depth) | _mask_flags(f, mask.args[1], base, depth)
+    if isinstance(mask, ast.Call) and short(mask) == 'isfinite' and len(mask.args) == 1 and norm(mask.args[0]) == base:
+        out.add('fin')
+    if isinstance(mask, ast.Compare) and len(mask.ops) == 1 and isinstance(mask.ops[0], ast.NotEq):
+        l, r = norm(mask.left), norm(mask.comparators[0])
+        if (l == base and r == 'nodata_values') or (r == base and l == 'nodata_values'):
+            out.add('ne')
+    if isinstance(mask, ast.Name):
+        vals = [v for v in f.local_assigns().get(mask.id, []) if isinstance(v, ast.AST)]
+        if len(vals) == 1:
+            return _mask_flags(f, vals[0], base, depth + 1)
+    return out
+
+
+def filter_flags(f, pm, node, expr):
+    """validity tests that the array denoted by `expr` at `node` has passed on EVERY path: subset of {'fin', 'ne'}.
+    `v = w[mask]` adds the tests of mask to those of w; if/else branches are intersected; anything else resets."""
+    def blocks_before(n):
+        st = n
+        while st is not None and not isinstance(st, ast.stmt):
+            st = pm.get(st)
+        out = []
+        cur = st
+        while cur is not None:
+            parent = pm.get(cur)
+            if parent is None:
+                break
+            for fld in ('body', 'orelse', 'finalbody'):
+                blk = getattr(parent, fld, None)
+                if isinstance(blk, list) and cur in blk:
+                    out.append(blk[:blk.index(cur)])
+            cur = parent
+        return out
+
+    def assigns(s, name):
+        return any(isinstance(x, ast.Name) and x.id == name and isinstance(x.ctx, ast.Store) for x in ast.walk(s))
+
+    def of_expr(e, blocks, depth):
+        if depth > 8:
+            return set()
+        if isinstance(e, ast.Name):
+            return of_name(e.id, blocks, depth)
+        if isinstance(e, ast.Subscript) and not isinstance(e.slice, (ast.Slice, ast.Constant)) and \
+                not (isinstance(e.slice, ast.Tuple)):
+            base = e.value
+            fl = _mask_flags(f, e.slice, norm(base))
+            if fl:
+                return of_expr(base, blocks, depth + 1) | fl
+            return set()
+        if isinstance(e, ast.Subscript) and isinstance(e.slice, ast.Slice):
+            return of_expr(e.value, blocks, depth + 1)         # a contiguous slice keeps what was filtered
+        if isinstance(e, ast.Call) and short(e) in ('sort', 'asarray', 'ravel', 'flatten', 'copy', 'array') and e.args:
+            return of_expr(e.args[0], blocks, depth + 1)
+        return set()
+
+    def of_name(name, blocks, depth):
+        for bi, blk in enumerate(blocks):
+            for si in range(len(blk) - 1, -1, -1):
+                s = blk[si]
+                if not assigns(s, name):
+                    continue
+                rest = [blk[:si]] + blocks[bi + 1:]
+                if isinstance(s, ast.Assign) and len(s.targets) == 1 and isinstance(s.targets[0], ast.Name):
+                    return of_expr(s.value, rest, depth + 1)
+                if isinstance(s, ast.If):
+                    res = None
+                    for br in (s.body, s.orelse):
+                        r = of_name(name, [br] + rest, depth + 1) if any(assigns(x, name) for x in br) else of_name(name, rest, depth + 1)
+                        res = r if res is None else (res & r)
+                    return res or set()
+                return set()
+        return set()
+    return of_expr(expr, blocks_before(node), 0)
+
+
 def check_validity(prog, rep, fs, entry_of):
-    """Z3: every reducer / counting site receives values filtered by isfinite & != nodata"""
+    """Z3: every reducer / counting / total site receives values that have passed isfinite AND != nodata on every path"""
+    from .astutil import parent_map
     n = 0
     for f in fs:
         if f.is_lambda:
             continue
+        pm = parent_map(f.node)
         sites = []
         for c in calls(f.node):
             if c not in f.own_nodes():
                 continue
             fn = c.func
             # reducer passed as parameter: func(x) / stats_func(x)
-            if isinstance(fn, ast.Name) and fn.id in f.params and len(c.args) == 1 and isinstance(c.args[0], ast.Name):
-                sites.append((c, c.args[0].id, 'reducer call'))
-            if short(c) == 'sort' and norm(fn) in ('np.sort', 'numpy.sort') and c.args and isinstance(c.args[0], ast.Name):
-                sites.append((c, c.args[0].id, 'category counting'))
-        for c, name, kind in sites:
-            d = filtered_def(f, name, c)
+            if isinstance(fn, ast.Name) and fn.id in f.params and len(c.args) == 1:
+                sites.append((c, c.args[0], 'reducer call'))
+            if short(c) == 'sort' and norm(fn) in ('np.sort', 'numpy.sort') and c.args:
+                sites.append((c, c.args[0], 'category counting'))
+        fam = {norm(a).split('[')[0] for c, a, kind in sites}
+        if fam:
+            # the number of valid cells (percentage base): <values>.shape[0] / len(<values>) / .size
+            for s in f.own_nodes():
+                if isinstance(s, ast.Assign) and isinstance(s.targets[0], ast.Name):
+                    v = s.value
+                    arg = None
+                    if isinstance(v, ast.Subscript) and isinstance(v.value, ast.Attribute) and v.value.attr == 'shape' and norm(v.slice) == '0':
+                        arg = v.value.value
+                    elif isinstance(v, ast.Call) and short(v) == 'len' and len(v.args) == 1:
+                        arg = v.args[0]
+                    elif isinstance(v, ast.Attribute) and v.attr == 'size':
+                        arg = v.value
+                    if arg is not None and norm(arg).split('[')[0] in fam and 'count' in s.targets[0].id:
+                        sites.append((s, arg, 'valid-cell count'))
+        for c, arg, kind in sites:
+            fl = filter_flags(f, pm, c, arg)
             n += 1
-            if d is None:
-                rep.add('Z3', f, entry_of(f), '%s: %s' % (kind, norm(c)), c.lineno, False,
-                        'the values handed to the %s are not filtered: only finite cells different from nodata_values '
-                        'may be summarised' % kind)
-                continue
-            ok, why = is_valid_mask(d.value.slice, norm(d.value.value))
-            rep.add('Z3', f, entry_of(f), norm(d)[:160], d.lineno, ok,
-                    'only finite cells different from nodata_values may be summarised: ' + why)
+            miss = [t for t, k in (('np.isfinite(...)', 'fin'), ('(... != nodata_values)', 'ne')) if k not in fl]
+            rep.add('Z3', f, entry_of(f), '%s: %s' % (kind, norm(c)[:120]), c.lineno, not miss,
+                    'only finite cells different from nodata_values may be summarised, on every path (integer rasters '
+                    'too: nodata is a value, not NaN): the values reaching this %s have not passed %s' % (kind, ' and '.join(miss)))
         # category discovery
         if f.name == '_find_cats' or any(short(c) == 'unique' and 'values' in norm(c) for c in calls(f.node) if c in f.own_nodes()):
             for c in calls(f.node):
-                if c in f.own_nodes() and short(c) == 'unique' and c.args and isinstance(c.args[0], ast.Subscript) and \
-                        'values' in norm(c.args[0].value):
-                    ok, why = is_valid_mask(c.args[0].slice, norm(c.args[0].value))
+                if c in f.own_nodes() and short(c) == 'unique' and c.args and 'values' in norm(c.args[0]):
+                    fl = filter_flags(f, pm, c, c.args[0])
+                    miss = [t for t, k in (('np.isfinite(...)', 'fin'), ('(... != nodata_values)', 'ne')) if k not in fl]
                     n += 1
-                    rep.add('Z3', f, entry_of(f), norm(c)[:160], c.lineno, ok,
-                            'categories are the distinct finite, non-nodata values: ' + why)
+                    rep.add('Z3', f, entry_of(f), norm(c)[:160], c.lineno, not miss,
+                            'categories are the distinct finite, non-nodata values: not passed %s' % ' and '.join(miss))
     return n
 
 
